@@ -78,7 +78,7 @@ Print Assumptions C20_cycle_ddwrt.
 Theorem C20_restore_merlin : forall c e r1 e1 ls ok1 r2 e2 ok2 e3 ok3,
   cr_clean (conf e) ->
   configure (new Merlin e) c e = (r1, e1, ls, ok1) -> setup r1 e1 = (r2, e2, ok2) -> restore r2 e2 = (e3, ok3) ->
-  ok3 = true /\ view Merlin (loaded e3) = mkV false t_53 false [] false false (owner_lines (conf e)).
+  ok3 = true /\ view Merlin (loaded e3) = mkV false t_53 false [] false false (owner_lines (conf e)) false.
 Proof. exact merlin_restore. Qed.
 Print Assumptions C20_restore_merlin.
 
